@@ -13,21 +13,17 @@ ZERO = {"int": 0, "float": 0.0, "str": "", "bool": False}
 
 
 def unify_none(j):
-    """transport IR with every none-type default written as {"t": "none"}"""
-    j = copy.deepcopy(j)
-    for p in [q for _, q in j["params"]] + ([j["returns"]] if j.get("returns") else []):
-        d = p.get("default")
-        if d is not None and d.get("t") == "str" and d.get("v") in NONE_STRS:
-            p["default"] = {"t": "none"}
-    return j
+    """(kept for callers) the transport IR unchanged: Python None and the NoneStr string are distinct inputs"""
+    return copy.deepcopy(j)
 
 
 def canon_for_model(j, optional_absent_is_none=False):
-    j = unify_none(j)
+    j = copy.deepcopy(j)
     if optional_absent_is_none:
+        # argparse: `Optional[...]` <-> not required; an absent default and NoneStr are the same reading
         for _, p in j["params"]:
             if "default" not in p and (p.get("typ") or "").startswith("Optional["):
-                p["default"] = {"t": "none"}
+                p["default"] = {"t": "str", "v": "```(None)```"}
     # prose is compared modulo the default sentence and the single full stop set_default_doc inserts
     for _, p in j["params"]:
         if "doc" in p:
